@@ -70,7 +70,7 @@ type Ctx struct {
 	Transitions int64
 	Traces      int64
 	Skipped     int64
-	nontrivial  map[[2]uint64]struct{}
+	nontrivial  map[uint64]struct{}
 	NontrivialN int64
 	seen        map[[2]uint64]struct{}
 	Outcomes    map[string]int64
@@ -165,7 +165,7 @@ func (c *Ctx) Eval() { c.Evals++ }
 
 // Nontrivial records a distinct non-trivial case (by key).
 func (c *Ctx) Nontrivial(key ...[]byte) {
-	h := Hash128(key...)
+	h := Hash128(key...)[1]
 	if _, ok := c.nontrivial[h]; !ok {
 		c.nontrivial[h] = struct{}{}
 		c.NontrivialN++
@@ -240,7 +240,7 @@ func RunShard(ck *Check, tier string, shard, n int, out string) {
 	}
 	seed, _ := strconv.Atoi(os.Getenv("VERIF_SEED"))
 	c := &Ctx{ID: ck.ID, Tier: tier, Seed: seed, Shard: shard, NShards: n,
-		nontrivial: map[[2]uint64]struct{}{}, seen: map[[2]uint64]struct{}{},
+		nontrivial: map[uint64]struct{}{}, seen: map[[2]uint64]struct{}{},
 		Outcomes: map[string]int64{}, sigCount: map[string]int{}, Notes: map[string]interface{}{},
 		deadline: time.Now().Add(time.Duration(budget) * time.Second)}
 	if tp := os.Getenv("VERIF_TRACE"); tp != "" {
